@@ -161,3 +161,8 @@ pub assume_specification<T> [std::option::Option::<T>::or] (a: std::option::Opti
 pub assume_specification<T> [std::option::Option::<T>::as_deref] (a: &std::option::Option<T>) -> (r: std::option::Option<&<T as std::ops::Deref>::Target>)
     where T: std::ops::Deref,
     ensures r is Some <==> a is Some;
+pub broadcast axiom fn ax_str_string_eq_spec<'a>()
+    ensures #[trigger] <&'a str as PartialEqSpec<String>>::obeys_eq_spec();
+pub broadcast axiom fn ax_str_string_eq_def<'a>(a: &'a str, b: String)
+    ensures #[trigger] <&'a str as PartialEqSpec<String>>::eq_spec(&a, &b) == (a@ == b@);
+pub broadcast group string_eq2 { ax_str_string_eq_spec, ax_str_string_eq_def }
